@@ -3,7 +3,7 @@ namespace KinModel.DocValidate
 
 theorem localOK_parameters (T : Table) (o : Opts) (a : Attrs) (kids : List (String × Doc)) (vs : List Bool) :
     localOK T o (.node .parameters a kids) vs = rulesOK o (.node .parameters a kids) := by
-  simp (disch := decide) only [localOK, rulesOK, violations, Doc.kind, all_when, enabled_plain]
+  simp (disch := decide) only [localOK, localOKp, rulesOK, violations, Doc.kind, all_when, enabled_plain]
   simp only [bne, Bool.not_not, Bool.not_true, Bool.or_false]
 
 def refKinds : List Kind :=
@@ -27,7 +27,7 @@ theorem localOK_ref (T : Table) (o : Opts) (k : Kind) (a : Attrs) (kids : List (
     localOK T o (.node k a kids) vs = rulesOK o (.node k a kids) := by
   simp only [refKinds, List.mem_cons, List.not_mem_nil, or_false] at hk
   rcases hk with rfl | rfl | rfl | rfl | rfl | rfl | rfl | rfl | rfl <;>
-    simp only [localOK, rulesOK, violations, Doc.kind, Doc.attrs, refViols_all]
+    simp only [localOK, localOKp, rulesOK, violations, Doc.kind, Doc.attrs, refViols_all]
 
 theorem hasCheck_ident (T : Table) (o : Opts) (a : Attrs) (hT : TableOK T = true) (p : String) (hp : p ∈ componentPositions) :
     hasCheck T o a .components ("identifier:" ++ p) = true := by
@@ -37,7 +37,7 @@ theorem localOK_components (T : Table) (o : Opts) (a : Attrs) (kids : List (Stri
     (hT : TableOK T = true) :
     localOK T o (.node .components a kids) vs = rulesOK o (.node .components a kids) := by
   have hx := checkExt_eq T o (.node .components a kids) hT (by simp [extKinds, Doc.kind])
-  simp only [localOK, rulesOK, violations, Doc.kind, Doc.attrs, componentsOKCode, List.all_append, extra_all, hx, List.all_flatMap]
+  simp only [localOK, localOKp, rulesOK, violations, Doc.kind, Doc.attrs, componentsOKCode, List.all_append, extra_all, hx, List.all_flatMap]
   congr 1
   apply all_congr_mem
   intro p hp
